@@ -44,6 +44,9 @@ Proof. exact range_list_total. Qed.
     tokens are unchanged. *)
 Theorem C12_home : forall W rest, expand_home_tok W (TNone, 126 :: rest) = (TNone, home W ++ rest).
 Proof. exact expand_home_spec. Qed.
+(** expand_home is the index-buffer transcription too, proved to be the per-token map. *)
+Theorem C12_order_home : forall W toks, expand_home W toks = map (expand_home_tok W) toks.
+Proof. exact expand_home_map. Qed.
 Theorem C12_home_other : forall W tg s, tg <> TNone \/ strip_prefix [126] s = None ->
   expand_home_tok W (tg, s) = (tg, s).
 Proof. exact expand_home_other. Qed.
@@ -119,6 +122,7 @@ Print Assumptions C12_order_brace.
 Print Assumptions C12_range.
 Print Assumptions C12_home.
 Print Assumptions C12_home_other.
+Print Assumptions C12_order_home.
 Print Assumptions C12_glob.
 Print Assumptions C12_glob_order.
 Print Assumptions C12_refuted.
